@@ -173,10 +173,15 @@ pub fn spell(kind: &Value, rng: &mut Rng) -> String {
         "icomment" => rng.pick(&["  // x", "\t//y", " //[Metadata]"]).to_string(),
         "ver" => {
             let v = geti(kind, "v");
-            match rng.below(4) {
+            // the number is what follows the LAST `v` of the line
+            match rng.below(8) {
                 0 => format!("osu file format v{v}   "),
                 1 => format!("osu file format v {v}"),
                 2 => format!("osu file format v+{v}"),
+                3 => format!("osu file format vv{v}"),
+                4 => format!("osu file format v1v{v}"),
+                5 => format!("osu file format v14 rev{v}"),
+                6 if v >= 0 => format!("osu file format v00{v}"),
                 _ => format!("osu file format v{v}"),
             }
         }
@@ -195,7 +200,8 @@ pub fn spell(kind: &Value, rng: &mut Rng) -> String {
         }
         "hdrx" => rng
             .pick(&["[Foo]", " [General]", "[General] x", "[general]", "[General] // c", "[General", "[]",
-                    "[[General]]", "[ General ]", "[HitObject]"])
+                    "[[General]]", "[ General ]", "[HitObject]", "[Colors]", "[Color]", "[Hitobjects]", "[TimingPoint]",
+                    "[Difficulty ]", "[Event]", "[Catch]"])
             .to_string(),
         "rec" => rng.pick(&RECS).to_string(),
         "recbad" => rng.pick(&RECBAD).to_string(),
